@@ -1,7 +1,8 @@
 #!/usr/bin/env python3
-"""tools/benign_intake.py : files the behaviour-preserving refactorings delivered by sub-agents under /tmp/seedb/out/<Cxx>/change<k>.diff
-into /verif/benign/<cxx>-r<k>/ after confirming, in the scratch worktree /tmp/seedb/<Cxx>, that each applies, builds and passes the
-existing suite (36 unit tests). Equivalence itself is the agent's argument (notes.md) and is re-read whenever a check alarms."""
+"""tools/benign_intake.py [--base DIR] [--shift N] [Cxx ...]: files the behaviour-preserving refactorings delivered by sub-agents under
+<base>/out/<Cxx>/change<k>.diff (base: /tmp/seedb for round 1, /tmp/seedc for round 2) into /verif/benign/<cxx>-r<k+N>/ after confirming,
+in the scratch worktree <base>/<Cxx>, that each applies, builds and passes the existing suite (36 unit tests). Equivalence itself is the
+agent's argument (notes.md) and is re-read whenever a check alarms."""
 import concurrent.futures, json, os, re, shutil, subprocess, sys
 VERIF = os.path.dirname(os.path.dirname(os.path.abspath(__file__)))
 
@@ -14,8 +15,8 @@ def sh(cmd, cwd):
 
 
 def one(pid):
-    wt = '/tmp/seedb/%s' % pid
-    od = '/tmp/seedb/out/%s' % pid
+    wt = '%s/%s' % (BASE, pid)
+    od = '%s/out/%s' % (BASE, pid)
     res = []
     for k in (1, 2, 3):
         diff = os.path.join(od, 'change%d.diff' % k)
@@ -34,20 +35,28 @@ def one(pid):
         if not ok:
             res.append('%s r%d: SUITE FAILS %s' % (pid, k, lines[:2]))
             continue
-        sid = '%s-r%d' % (pid.lower(), k)
+        sid = '%s-r%d' % (pid.lower(), k + SHIFT)
         d = os.path.join(VERIF, 'benign', sid)
         os.makedirs(d, exist_ok=True)
         shutil.copy(diff, os.path.join(d, 'patch.diff'))
         n = os.path.join(od, 'notes%d.md' % k)
         if os.path.exists(n):
             shutil.copy(n, os.path.join(d, 'notes.md'))
-        json.dump({'id': sid, 'property': pid, 'touches': touched, 'origin': 'fresh sub-agent asked for a behaviour-preserving refactoring of the code the property is anchored in',
+        json.dump({'id': sid, 'property': pid, 'touches': touched, 'origin': 'fresh sub-agent asked for a behaviour-preserving refactoring of the code the property is anchored in (%s change %d)' % (BASE, k),
                    'confirmed_by_running': [{'cmd': 'cargo test --offline (existing suite) with the refactoring applied', 'result': lines}]}, open(os.path.join(d, 'meta.json'), 'w'), indent=1)
         res.append('%s r%d: filed %s (%s)' % (pid, k, sid, ','.join(touched)))
     return res
 
 
-pids = sys.argv[1:] or ['C%02d' % i for i in range(1, 21)]
+argv = sys.argv[1:]
+BASE, SHIFT = '/tmp/seedb', 0
+while argv and argv[0].startswith('--'):
+    if argv[0] == '--base':
+        BASE = argv[1]
+    elif argv[0] == '--shift':
+        SHIFT = int(argv[1])
+    argv = argv[2:]
+pids = argv or ['C%02d' % i for i in range(1, 21)]
 with concurrent.futures.ThreadPoolExecutor(max_workers=8) as ex:
     for r in ex.map(one, pids):
         for l in r:
